@@ -29,6 +29,10 @@ pub struct DecoderSpec {
 	/// once a call has failed, every later call fails too (broken stream)
 	#[serde(default)]
 	pub fail_sticky: bool,
+	/// extra yield points per `decode` call: under random schedules the decoder is then slow
+	/// compared with the audio task (the ring runs low, data arrives while a chunk is rendered)
+	#[serde(default)]
+	pub slow: u32,
 }
 
 impl DecoderSpec {
@@ -40,6 +44,7 @@ impl DecoderSpec {
 			fail_decode: vec![],
 			fail_seek: vec![],
 			fail_sticky: false,
+			slow: 0,
 		}
 	}
 }
@@ -106,6 +111,9 @@ impl Decoder for ScriptedDecoder {
 	fn decode(&mut self) -> Result<Vec<Frame>, ScriptErr> {
 		// lets the simulator preempt / end a decoder task that is stuck in here
 		kira::verif::yield_point("scripted.decode");
+		for _ in 0..self.spec.slow {
+			kira::verif::yield_point("scripted.decode.slow");
+		}
 		let call = self.probe.decode_calls.fetch_add(1, Ordering::SeqCst);
 		if self.spec.fail_decode.contains(&call) || (self.spec.fail_sticky && self.probe.errors.load(Ordering::SeqCst) > 0) {
 			return Err(self.raise(ScriptErr::Decode(call)));
